@@ -514,7 +514,11 @@ def _exec_genfile(run, rd):
     consumer = plan["consumer"]
     files = []      # (relative name under data dir)
     direct_sets = []
-    n_files = 2 if consumer == "dataset_test_multi" else 1
+    # "dataset_filename" may run against an env that already has ANOTHER file configured for that phase: the
+    # explicitly requested file must win (documented override used by tasks/eval.py and the search models)
+    over_configured = consumer == "dataset_filename" and plan["np_seed"] % 2 == 0
+    n_files = 2 if (consumer == "dataset_test_multi" or over_configured) else 1
+    n_expected = 2 if consumer == "dataset_test_multi" else 1
     data_dir = rd.join("data")
     os.makedirs(data_dir, exist_ok=True)
 
@@ -600,6 +604,9 @@ def _exec_genfile(run, rd):
         cfg2["kw"].update(data_dir=data_dir, val_file=files[0])
     elif consumer == "dataset_test_multi":
         cfg2["kw"].update(data_dir=data_dir, test_file=list(files), test_dataloader_names=["a", "b"])
+    elif over_configured:
+        cfg2["kw"].update(data_dir=data_dir, test_file=files[1])
+        run.probe("filename_over_configured_file")
     with run.guard(scope, "construct env (reader)"):
         env = E.make_env(cfg2)
     loaded_sets = []
@@ -615,8 +622,8 @@ def _exec_genfile(run, rd):
                 ds = {"f": env.dataset(K, phase="test", filename=os.path.join(data_dir, files[0]))}
             else:
                 ds = env.dataset(K, phase="test")
-        if not isinstance(ds, dict) or len(ds) != n_files:
-            run.violate(scope, "dataset_from_file", f"env.dataset returned {type(ds).__name__} for {n_files} file(s)",
+        if not isinstance(ds, dict) or len(ds) != n_expected:
+            run.violate(scope, "dataset_from_file", f"env.dataset returned {type(ds).__name__} for {n_expected} file(s)",
                         constraint="count", consumer=consumer)
             raise StopRun()
         for nm in (["a", "b"] if consumer == "dataset_test_multi" else list(ds)):
